@@ -53,6 +53,28 @@ THEOREMS = [
     "Verif.C17.refine_span_sorted",
     "Verif.C17.gaussian_within_span",
     "Verif.C17.removeInRect_sublist",
+    # deepening round D
+    "Verif.C17.applyOp_preserves_wf",
+    "Verif.C17.runProg_preserves_wf",
+    "Verif.C17.runProg_no_new_nodes",
+    "Verif.C17.split_merge_roundtrip",
+    "Verif.C17.interpolate_idempotent",
+    "Verif.C17.refine_refine_span",
+    "Verif.C17.filter_filter",
+    "Verif.C17.filter_idempotent",
+    "Verif.C17.removeInRect_spec",
+    "Verif.C17.file_roundtrip",
+    "Verif.C17.file_roundtrip_spec",
+    "Verif.C17.fmt6e_idempotent",
+    "Verif.C17.fmt6e_accurate",
+    "Verif.C17.roundtrip_twice",
+    "Verif.C17.sumSignal_spec",
+    "Verif.C17.sumSignal_negative_stop_wraps",
+    "Verif.C17.centroid_offset_spec",
+    "Verif.C17.centroid_true_centre",
+    "Verif.C17.centroid_window_mean",
+    "Verif.C17.centroid_refinement_fills_span",
+    "Verif.C17.centroid_settled_offset",
 ]
 RULE = (
     "corpus (F4: one single-node track, three delimiters; F8: kbp-calibrated and uncalibrated kymograph saved with "
@@ -73,12 +95,18 @@ RULE = (
     "edges x every overlap strategy x refine_missing_frames on/off x centroid with/without bias correction, plus a seeded "
     "random stream; a lone such spot must be returned within 0.05 pixel (centroid: bound of the missing tail) / 0.25 "
     "pixel (Gaussian: optimizer termination on a clipped window; worst seen on the unchanged library 0.09). Non-trivial: round trip re-imported >= 1 track; program: at least one operation changed the group or was refused; "
-    "refinement: a track with a gap or >= 2 tracks or a lone spot next to an image edge; %.6e: value with more than 7 significant digits."
+    "refinement: a track with a gap or >= 2 tracks or a lone spot next to an image edge; %.6e: value with more than 7 significant digits. "
+    "Deepening round D: every round trip also compares the title line, the file cell by cell, the import through titles and a "
+    "second save/import; header variants (21 hand-written layouts x 3 delimiters + random); sample_from_image on every quarter "
+    "pixel of a 6-pixel line x widths 0/1/2/5 x both origins; centroid refinement without bias correction on spot images "
+    "(interior / next to an edge) and random photon-count images, coordinates kept 0.003-0.04 pixel away from rounding ties; "
+    "refinement applied twice; small scopes for split->merge, interpolate twice, filter twice."
 )
 TRUSTED = [
     "np.savetxt / np.loadtxt / %.18e: the text round trip of a double is exact (asserted at relative 1e-15 by the oracle); "
-    "the CSV file is modelled as named columns (header parsing by title is checked by the oracle on the real file only)",
-    "the numerical estimators (scipy.signal.convolve2d centroid, scipy.optimize Gaussian MLE) are parameters of the model; "
+    "the delimiter handling of np.savetxt / np.loadtxt is trusted; version line, titles and the look-up by title are modelled (CsvFile) and tied",
+    "the centroid estimator without bias correction is modelled (zero-padded convolutions, pixel walk) and tied at 1e-9; the bias-corrected "
+    "centroid (unbiased_centroid, the default) and the scipy.optimize Gaussian MLE stay parameters of the model; "
     "their sub-pixel accuracy on noise-free spots is explored by the oracle with stated tolerances (5e-3 pixel), not proved",
     "exact rationals stand for the doubles of the code; float rounding of products/quotients is absorbed by the stated "
     "tolerances (round trip 1e-15 relative, editing 1e-9·scale), decisions on floats keep a margin (see ASSUMPTIONS)",
@@ -386,7 +414,7 @@ def impl(case):
     kind = case["kind"]
     if kind == "fmt":
         return [enc_rat(Fraction("%.6e" % float(case["x"])))]
-    n_answers = 2 if kind == "rt" else 1
+    n_answers = 6 if kind == "rt" else 1
     prep = prepare(case)
     if "unreachable" in prep:
         return [with_aux(UNREACHABLE, {"why": prep["unreachable"]})] * n_answers
@@ -410,7 +438,7 @@ def _impl(case, partial):
         try:
             prep["group"].save(path, delimiter=case["delim"], sampling_width=case["sw"], correct_origin=case["co"])
         except Exception as e:
-            return [errname(e), errname(e)]
+            return [errname(e)] * 6
         text = open(path).read()
         parsed = parse_csv_text(text, case["delim"])
         if "bad" in parsed:
@@ -425,12 +453,51 @@ def _impl(case, partial):
             raise
         except Exception as e:
             a2 = "IOError" if isinstance(e, OSError) else errname(e)
-        return [a1, a2]
+        # a3: the column titles of the real file; a4: the import again, compared with the model's route through titles
+        a3 = "bad-file" if "bad" in parsed else enc_titles(parsed["titles"])
+        # a5: composition — the re-imported group saved and imported once more (roundtrip_twice)
+        a5 = a2
+        if not a2.endswith("Error"):
+            try:
+                path2 = os.path.join(_TMP, "rt2.csv")
+                g2.save(path2, delimiter=case["delim"], sampling_width=case["sw"], correct_origin=case["co"])
+                g3 = kymotrack.import_kymotrackgroup_from_csv(path2, prep["kymo"], "red", delimiter=case["delim"])
+                st3 = B.group_state(g3)
+                a5 = with_aux(enc_group(st3), {"state": state_json(st3), "first": state_json(st)})
+            except B.Unreachable:
+                raise
+            except Exception as e:
+                a5 = "IOError" if isinstance(e, OSError) else errname(e)
+        # a6: the file cell by cell, in file order (positional, no look-up by title)
+        if "bad" in parsed:
+            a6 = "bad-file"
+        else:
+            a6 = f"{parsed['version']} {enc_titles(parsed['titles'])} [" + ";".join(",".join(enc_rat(float(x)) for x in r) for r in parsed["rows"]) + "]"
+        return [a1, a2, a3, a2, a5, a6]
     if kind == "read":
         prep = prepare(case)
         path = os.path.join(_TMP, "read.csv")
         with open(path, "w") as f:
             f.write(handwritten_file(case, prep["info"]))
+        try:
+            g2 = kymotrack.import_kymotrackgroup_from_csv(path, prep["kymo"], "red", delimiter=case["delim"])
+            st = B.group_state(g2)
+            return [with_aux(enc_group(st), {"state": state_json(st)})]
+        except B.Unreachable:
+            raise
+        except Exception as e:
+            return ["IOError" if isinstance(e, OSError) else errname(e)]
+    if kind == "sample":
+        prep = prepare(case)
+        try:
+            return ["[" + ",".join(str(int(v)) for v in prep["group"][0].sample_from_image(case["w"], correct_origin=case["co"])) + "]"]
+        except Exception as e:
+            return [errname(e)]
+    if kind == "hdr":
+        prep = prepare(case)
+        path = os.path.join(_TMP, "hdr.csv")
+        with open(path, "w") as f:
+            f.write(header_file(case))
         try:
             g2 = kymotrack.import_kymotrackgroup_from_csv(path, prep["kymo"], "red", delimiter=case["delim"])
             st = B.group_state(g2)
@@ -480,6 +547,25 @@ def _impl(case, partial):
             return [errname(e)]
         st = B.group_state(r)
         return [with_aux(enc_times_md(st), {"state": state_json(st), "orig": state_json(prep["state0"])})]
+    if kind == "centroid":
+        # the numerical core: refined coordinates without bias correction (model: convolution moments + pixel walk)
+        prep = prepare(case)
+        try:
+            r = lk.refine_tracks_centroid(prep["group"], track_width=case["width"], bias_correction=False)
+        except Exception as e:
+            return [errname(e)]
+        st = B.group_state(r)
+        return [with_aux(enc_times_coords(st), {"state": state_json(st), "orig": state_json(prep["state0"])})]
+    if kind == "refine2":
+        # composition: refining the refined tracks once more (refine_refine_span)
+        prep = prepare(case)
+        try:
+            r1 = lk.refine_tracks_centroid(prep["group"], track_width=case["width"], bias_correction=case["bias"])
+            r2 = lk.refine_tracks_centroid(r1, track_width=case["width"], bias_correction=case["bias"])
+        except Exception as e:
+            return [errname(e)]
+        st1, st2 = B.group_state(r1), B.group_state(r2)
+        return [with_aux(enc_times_md(st2), {"state": state_json(st2), "once": state_json(st1), "orig": state_json(prep["state0"])})]
     if kind == "gauss":
         prep = prepare(case)
         g = prep["group"]
@@ -491,6 +577,19 @@ def _impl(case, partial):
         src = B.group_state(kymotrack.KymoTrackGroup([tr.interpolate() for tr in g])) if case["missing"] else prep["state0"]
         return [with_aux(enc_times_md(st), {"state": state_json(st), "orig": state_json(prep["state0"]), "src": state_json(src)})]
     raise ValueError(kind)
+
+
+def enc_times_coords(state):
+    t = "[" + ";".join(",".join(str(int(v)) for v in tr["t"]) for tr in state) + "]"
+    c = "[" + ";".join(",".join(enc_rat(v) for v in tr["c"]) for tr in state) + "]"
+    return f"{t} {c}"
+
+
+def enc_image_rat(image):
+    return "[" + ";".join(",".join(enc_rat(float(v)) for v in image[:, t]) for t in range(image.shape[1])) + "]"
+
+
+CENTROID_EPS = 1e-7  # refine_peak_based_on_moment(eps=1e-7): its default, not overridden by refine_tracks_centroid
 
 
 def enc_times_md(state):
@@ -517,6 +616,22 @@ def handwritten_file(case, info):
     return "\n".join(out) + "\n"
 
 
+def enc_titles(titles):
+    return "|".join(t.replace(" ", "~") for t in titles) if titles else "-"
+
+
+def header_file(case):
+    """a file given as version line (or none), title line and cells, exactly as np.savetxt would lay it out"""
+    d = case["delim"]
+    out = []
+    if case["version"] is not None:
+        out.append(f"# Exported with pylake v1.5.3 | track coordinates v{case['version']}")
+    out.append("# " + d.join(case["titles"]))
+    for r in case["cells"]:
+        out.append(d.join("%.18e" % x for x in r))
+    return "\n".join(out) + "\n"
+
+
 # ------------------------------------------------------------------ model side
 
 
@@ -526,14 +641,24 @@ def ops(case):
         return ["c17.fmt6 " + enc_rat(float(case["x"]))]
     prep = prepare(case)
     if "unreachable" in prep:
-        return ["c17.fmt6 0/1"] * (2 if kind == "rt" else 1)  # filler: the answers of a skipped case are never compared
+        return ["c17.fmt6 0/1"] * (6 if kind == "rt" else 1)  # filler: the answers of a skipped case are never compared
     info = prep["info"]
     ky = enc_kymo(info)
     if kind == "rt":
         smp = "N" if case["sw"] is None else f"{case['sw']}:{1 if case['co'] else 0}"
         img = enc_image(prep["image"]) if case["sw"] is not None else "[]"
         g = enc_group(prep["state0"])
-        return [f"c17.export {ky} {smp} {img} {g}", f"c17.roundtrip {ky} {smp} {img} {g}"]
+        all_md = "T" if all(tr["min_duration"] is not None for tr in prep["state0"]) else "F"
+        return [f"c17.export {ky} {smp} {img} {g}", f"c17.roundtrip {ky} {smp} {img} {g}",
+                f"c17.titles {info['unit']} {smp} {all_md}", f"c17.fileroundtrip {ky} {info['unit']} {smp} {img} {g}",
+                f"c17.roundtrip2 {ky} {smp} {img} {g}", f"c17.exportfile {ky} {info['unit']} {smp} {img} {g}"]
+    if kind == "sample":
+        st = prep["state0"][0]
+        return [f"c17.samples {case['w']} {1 if case['co'] else 0} {enc_image(prep['image'])} [" + ",".join(str(int(t)) for t in st["t"]) + "] [" + ",".join(enc_rat(c) for c in st["c"]) + "]"]
+    if kind == "hdr":
+        rows = "[" + ";".join(",".join(enc_rat(float("%.18e" % x)) for x in r) for r in case["cells"]) + "]"
+        v = "N" if case["version"] is None else str(case["version"])
+        return [f"c17.readfile {ky} {v} {enc_titles(case['titles'])} {rows}"]
     if kind == "read":
         rows = []
         for idx, t, c, cnt, md in case["rows"]:
@@ -557,6 +682,11 @@ def ops(case):
         return [f"c17.prog {ky} {enc_group(prep['state0'])} " + " ".join(toks)]
     if kind == "refine":
         return ["c17.refine " + enc_group(prep["state0"])]
+    if kind == "refine2":
+        return ["c17.refine2 " + enc_group(prep["state0"])]
+    if kind == "centroid":
+        h = int(np.ceil(case["width"] / info["pixelsize"])) // 2  # _to_half_kernel_size on the same doubles
+        return [f"c17.centroid {h} {enc_rat(CENTROID_EPS)} {enc_image_rat(prep['image'])} " + enc_group(prep["state0"])]
     if kind == "gauss":
         kymotrack, _ = _kt()
         skip = "T" if case["strategy"] == "skip" else "F"
@@ -580,6 +710,8 @@ def agree(case, i, ia, ma):
     try:
         if kind == "fmt":
             return _rat(ia) == _rat(ma)
+        if kind == "rt" and i == 2 and ia.endswith("Error"):
+            return True  # nothing was saved (empty group): there is no title line to compare; answers 0/1/3 carry the error
         if ia.endswith("Error") or ma.endswith("Error") or ia.startswith("bad") or ma.startswith("bad"):
             if kind == "refine" and case.get("width_invalid"):
                 return True  # track-width validation is not part of the model; judged by the oracle
@@ -599,13 +731,36 @@ def agree(case, i, ia, ma):
                 if (a[6] == "N") != (m[6] == "N") or (a[6] != "N" and float(_rat(m[6])) != float(_rat(a[6]))):
                     return False
             return True
-        if kind in ("rt", "read"):
+        if kind == "rt" and i == 2:
+            return ia == ma
+        if kind == "rt" and i == 5:
+            va, ta, ca = ia.split(" ")
+            vm, tm, cm = ma.split(" ")
+            if va != vm or ta != tm:
+                return False
+            ra, rm = ca[1:-1].split(";"), cm[1:-1].split(";")
+            if len(ra) != len(rm):
+                return False
+            for x, y in zip(ra, rm):
+                x, y = x.split(","), y.split(",")
+                if len(x) != len(y) or not all(relclose(_rat(u), _rat(v), TOL_RT) if j != len(x) - 1 else float(_rat(u)) == float(_rat(v)) or relclose(_rat(u), _rat(v), TOL_RT) for j, (u, v) in enumerate(zip(x, y))):
+                    return False
+            return True
+        if kind in ("rt", "read", "hdr"):
             return same_group(dec_group(ia), dec_group(ma), TOL_RT, md_exact=True)
         if kind == "prog":
             ea, _, ga = ia.partition(" ")
             em, _, gm = ma.partition(" ")
             return ea == em and same_group(dec_group(ga), dec_group(gm), TOL_EDIT, md_exact=False, md_tol=md_tol)
-        if kind in ("refine", "gauss"):
+        if kind == "centroid":
+            ta, ca = ia.split(" ")
+            tm, cm = ma.split(" ")
+            if ta != tm:
+                return False
+            xs = [_rat(x) for r in ca[1:-1].split(";") for x in r.split(",")]
+            ys = [_rat(x) for r in cm[1:-1].split(";") for x in r.split(",")]
+            return len(xs) == len(ys) and all(abs(x - y) <= Fraction(TOL_EDIT) * (abs(y) + 1) for x, y in zip(xs, ys))
+        if kind in ("refine", "refine2", "gauss"):
             ta, mda = ia.split(" ")
             tm, mdm = ma.split(" ")
             if ta != tm:
@@ -653,7 +808,7 @@ def window_sum(image, t, c, w, correct_origin):
 def oracle(case, ia):
     kind = case["kind"]
     if kind == "fmt":
-        return None
+        return oracle_fmt(case, ia)
     if kind == "prog":
         bad = oracle_plus(case, ia)
         if bad:
@@ -664,16 +819,59 @@ def oracle(case, ia):
         return oracle_rt(case, ia)
     if kind == "read":
         return oracle_read(case, ia)
+    if kind == "hdr":
+        return oracle_hdr(case, ia)
+    if kind == "sample":
+        a = split_aux(ia[0])[0]
+        if a.endswith("Error"):
+            return f"photon-counts: sampling a track inside the image raised {a}"
+        prep = prepare(case)
+        st = prep["state0"][0]
+        exp = [window_sum(prep["image"], t, c, case["w"], case["co"]) for t, c in zip(st["t"], st["c"])]
+        got = [int(x) for x in a[1:-1].split(",")] if a != "[]" else []
+        return None if got == exp else f"photon-counts: sampled {got[:8]}, the sum over the {2 * case['w'] + 1} pixels around each node is {exp[:8]}"
     if kind == "prog":
         return oracle_prog(case, ia)
-    if kind == "refine":
+    if kind in ("refine", "centroid"):
         return oracle_refine(case, ia)
+    if kind == "refine2":
+        return oracle_refine2(case, ia)
     if kind == "gauss":
         return oracle_gauss(case, ia)
     return None
 
 
+def oracle_fmt(case, ia):
+    """'%.6e': seven significant digits of the value (half a unit of the seventh), printing the printed value changes nothing"""
+    x = Fraction(float(case["x"]))
+    v = _rat(split_aux(ia[0])[0])
+    if abs(v - x) > abs(x) * Fraction(1, 2000000):
+        return f"six-decimals: {float(case['x'])!r} printed as {float(v)!r}: more than half a unit of the seventh digit away"
+    if Fraction("%.6e" % float(v)) != v:
+        return f"six-decimals: printing the printed value {float(v)!r} again gives {'%.6e' % float(v)}"
+    return None
+
+
 def oracle_rt(case, ia):
+    bad = _oracle_rt(case, ia)
+    if bad or len(ia) < 5:
+        return bad
+    a2, aux2 = split_aux(ia[1])
+    a5, aux5 = split_aux(ia[4])
+    if a2.endswith("Error") or not case["tracks"]:
+        return None
+    if a5.endswith("Error"):
+        return f"second-round-trip: the re-imported group could not be saved and imported again: {a5}"
+    first, again = aux5["first"], aux5["state"]
+    if len(first) != len(again):
+        return f"second-round-trip: {len(again)} tracks after saving the re-imported group, {len(first)} before"
+    for k, (x, y) in enumerate(zip(first, again)):
+        if not same_track(x, y, 1e-15):
+            return f"second-round-trip: track {k} changed when the re-imported group was saved and imported again (lines {y['t'][:8]}, minimum duration {x['md']!r} -> {y['md']!r}, counts {y['counts'] and y['counts'][:6]})"
+    return None
+
+
+def _oracle_rt(case, ia):
     tracks = case["tracks"]
     a1, aux1 = split_aux(ia[0])
     a2, aux2 = split_aux(ia[1])
@@ -758,6 +956,36 @@ def oracle_read(case, ia):
             return f"grouping: counts of track index {g[0][0]}"
         if (got["md"] is None) == case["has_md"] or (case["has_md"] and got["md"] != float("%.6e" % g[0][4])):
             return f"minimum-duration: track index {g[0][0]} imported {got['md']!r}"
+    return None
+
+
+def oracle_hdr(case, ia):
+    """hand-written header variants: what the documented file format says about them (`expect` is written next to each
+    variant in HDR_VARIANTS; variants whose outcome the format does not determine are compared with the model only)"""
+    a, aux = split_aux(ia[0])
+    exp = case.get("expect")
+    if exp is None:
+        return None
+    if exp == "IOError":
+        return None if a == "IOError" else f"header[{case['variant']}]: expected IOError, got {a[:60]}"
+    if a.endswith("Error"):
+        return f"header[{case['variant']}]: a file with the documented columns was refused: {a}"
+    base = case["base"]
+    idxs = sorted(set(r[0] for r in base))
+    groups = [[r for r in base if r[0] == k] for k in idxs]
+    st = aux["state"]
+    if len(st) != len(groups):
+        return f"header[{case['variant']}]: {len(st)} tracks for track indices {idxs}"
+    for g, got in zip(groups, st):
+        if got["t"] != [int(r[1]) for r in g]:
+            return f"header[{case['variant']}]: lines {got['t']} for file rows {[r[1] for r in g]}"
+        want_c = [r[2] + (1.0 if exp.get("coord") == "second" else 0.0) for r in g]
+        if any(not relclose(w, c, TOL_RT) for w, c in zip(want_c, got["c"])):
+            return f"header[{case['variant']}]: coordinates {got['c'][:6]} instead of {want_c[:6]}"
+        if (got["counts"] if exp.get("counts") else None) != ([r[3] for r in g] if exp.get("counts") else None) or (not exp.get("counts") and got["counts"] is not None):
+            return f"header[{case['variant']}]: counts {got['counts']}"
+        if (got["md"] is not None) != bool(exp.get("md")) or (exp.get("md") and got["md"] != float("%.18e" % g[0][4])):
+            return f"header[{case['variant']}]: minimum duration {got['md']!r}"
     return None
 
 
@@ -875,6 +1103,21 @@ def oracle_prog(case, ia):
                     exp.append(tr)
             if err != "-" or len(post) != len(exp) or not all(same_track(x, y) for x, y in zip(post, exp)):
                 return where + f"remove_tracks_in_rect kept {len(post)} tracks, expected {len(exp)} untouched ones"
+    # whole program (runProg_preserves_wf / runProg_no_new_nodes): every track of every state is non-empty, has strictly
+    # increasing lines and one count per node; without interpolation every node of the final group is a node of the first
+    for n, st in enumerate(states):
+        for tr in st:
+            if not tr["t"] or any(x >= y for x, y in zip(tr["t"], tr["t"][1:])) or (tr["counts"] is not None and len(tr["counts"]) != len(tr["t"])):
+                return f"well-formed: after {n} operations a track has lines {tr['t'][:12]} / {None if tr['counts'] is None else len(tr['counts'])} counts"
+    if states and all(op[0] != "i" for op in case["ops"]):
+        first = {}
+        for tr in states[0]:
+            for t, c in zip(tr["t"], tr["c"]):
+                first.setdefault(t, []).append(c)
+        for tr in states[-1]:
+            for t, c in zip(tr["t"], tr["c"]):
+                if not any(abs(c - c0) <= 1e-15 * (abs(c0) + 1) for c0 in first.get(t, [])):
+                    return f"conserve: node (t={t}, c={c!r}) of the final group is not a node of the group the program started from"
     return None
 
 
@@ -910,6 +1153,22 @@ def oracle_refine(case, ia):
             for t, c in zip(r["t"], r["c"]):
                 if abs(c - truth[t]) > spot_tol(case):
                     return f"sub-pixel: centroid refinement of track {k} line {t}: {c!r}, true centre {truth[t]!r} (tolerance {spot_tol(case)} pixel{edge_note(case)})"
+    return None
+
+
+def oracle_refine2(case, ia):
+    """refining refined tracks: same number of tracks, the same lines as after one refinement, minimum durations kept"""
+    a, aux = split_aux(ia[0])
+    if a.endswith("Error"):
+        return f"centroid refinement of refined tracks raised {a}"
+    once, twice, orig = aux["once"], aux["state"], aux["orig"]
+    if len(twice) != len(once) or len(once) != len(orig):
+        return f"track-count: refining twice returned {len(twice)} tracks, once {len(once)}, given {len(orig)}"
+    for k, (o, r1, r2) in enumerate(zip(orig, once, twice)):
+        if r2["t"] != r1["t"] or r2["t"] != list(range(o["t"][0], o["t"][-1] + 1)):
+            return f"span: track {k} refined twice has lines {r2['t'][:15]}, refined once {r1['t'][:15]}"
+        if r2["md"] != o["md"] or r2["counts"] is None or len(r2["counts"]) != len(r2["t"]):
+            return f"metadata: track {k} refined twice: minimum duration {r2['md']!r} (was {o['md']!r}) / counts"
     return None
 
 
@@ -964,10 +1223,16 @@ def nontrivial(case, ia):
         return len(ia) > 1 and not ia[1].endswith("Error") and len(case["tracks"]) >= 1
     if kind == "read":
         return len(case["rows"]) >= 1
+    if kind == "hdr":
+        return len(case["cells"]) >= 1
+    if kind == "sample":
+        return len(case["tracks"][0]["t"]) >= 1
     if kind == "prog":
         st = aux.get("states", [])
         return any(x != y for x, y in zip(st, st[1:])) or "Error" in a
-    if kind in ("refine", "gauss"):
+    if kind == "centroid":
+        return True
+    if kind in ("refine", "refine2", "gauss"):
         return bool(case.get("edge")) or len(case["tracks"]) >= 2 or any(len(tr["t"]) < tr["t"][-1] - tr["t"][0] + 1 for tr in case["tracks"])
     return False
 
@@ -983,7 +1248,7 @@ def tags(case, r):
 
 def shrink(case):
     kind = case["kind"]
-    if kind in ("rt", "refine", "gauss", "prog"):
+    if kind in ("rt", "refine", "refine2", "centroid", "gauss", "prog"):
         trs = case.get("tracks", [])
         refs = set()
         for op in case.get("ops", []):
@@ -1031,6 +1296,12 @@ def shrink(case):
                 c = dict(case)
                 c["tracks"] = [dict(tr, hw=None) for tr in trs]
                 yield c
+    elif kind == "hdr" and len(case["cells"]) > 1 and case["variant"] != "ragged":
+        for i in range(len(case["cells"])):
+            c = dict(case)
+            c["cells"] = case["cells"][:i] + case["cells"][i + 1 :]
+            c["base"] = case["base"][:i] + case["base"][i + 1 :]
+            yield c
     elif kind == "read" and len(case["rows"]) > 1:
         for i in range(len(case["rows"])):
             c = dict(case)
@@ -1094,6 +1365,62 @@ def load_corpus():
                 c["stream"] = "corpus"
                 out.append(c)
     return out
+
+
+T_IDX, T_T, T_C, T_SEC, T_POS = "track index", "time (pixels)", "coordinate (pixels)", "time (seconds)", "position (um)"
+T_CNT, T_MD, T_ML3 = "counts (summed over 3 pixels)", "minimum observable duration (seconds)", "minimum_length (-)"
+STD7 = [(T_IDX, "idx"), (T_T, "t"), (T_C, "c"), (T_SEC, "sec"), (T_POS, "pos"), (T_CNT, "cnt"), (T_MD, "md")]
+# variant -> (version, [(title, value key)], expectation by the documented format: IOError / {counts, md, coord} / None)
+HDR_VARIANTS = {
+    "std": (4, STD7, {"counts": True, "md": True}),
+    "no-version-line": (None, STD7, {"counts": True, "md": True}),
+    "v1-three-columns": (None, STD7[:3], {}),
+    "v2": (2, STD7[:6], {"counts": True}),
+    "v3-minimum-length": (3, STD7[:6] + [(T_ML3, "md")], {"counts": True, "md": True}),
+    "v3-with-v4-title": (3, STD7, {"counts": True}),
+    "v4-with-v3-title": (4, STD7[:6] + [(T_ML3, "md")], {"counts": True}),
+    "permuted": (4, [STD7[0], STD7[6], STD7[2], STD7[5], STD7[4], STD7[1], STD7[3]], {"counts": True, "md": True}),
+    "time-first": (4, [STD7[1], STD7[0]] + STD7[2:], "IOError"),
+    "coordinate-missing": (4, STD7[:2] + STD7[3:], "IOError"),
+    "time-missing": (4, [STD7[0]] + STD7[2:], "IOError"),
+    "duplicate-coordinate": (4, STD7[:5] + [(T_C, "c2")], {"coord": "second"}),
+    "extra-column": (4, STD7[:3] + [("foo (bar)", "junk")] + STD7[3:], {"counts": True, "md": True}),
+    "counts-other-title": (4, STD7[:5] + [("photon counts", "cnt")], {"counts": True}),
+    "two-counts-columns": (4, STD7[:5] + [(T_CNT, "cnt"), ("counts (summed over 5 pixels)", "cnt2")], {"counts": True}),
+    "header-shorter": (4, STD7, {"counts": True}),        # the last title is left out: that column has no key
+    "header-longer": (4, STD7, {"counts": True, "md": True}),  # one more title than columns
+    "ragged": (4, STD7, "IOError"),
+    "index-other-title": (4, [("particle", "idx")] + STD7[1:], {"counts": True, "md": True}),
+    "index-title-with-counts": (4, [("counts index", "idx")] + STD7[1:5] + [STD7[6]], None),
+    "non-integer-time": (4, STD7, None),
+}
+
+
+def hdr_case(variant, base, delim, stream):
+    """base rows [idx, t, c, cnt, md] -> cells under the variant's titles"""
+    version, cols, expect = HDR_VARIANTS[variant]
+    lt, px = 0.125, 0.1
+    # minimum durations with at most seven significant digits: when a refactoring leaves the six-decimal CSV column as
+    # the only way to observe them (builders_tracks.MD_LOSSY) the observation is still exact
+    base = [[r[0], r[1], r[2], r[3], float("%.6e" % r[4])] for r in base]
+    if variant == "non-integer-time":
+        base = [[r[0], r[1] + 0.5, r[2], r[3], r[4]] for r in base]
+    val = {"idx": lambda r: float(r[0]), "t": lambda r: float(r[1]), "c": lambda r: r[2], "sec": lambda r: r[1] * lt, "pos": lambda r: r[2] * px,
+           "cnt": lambda r: float(r[3]), "md": lambda r: r[4], "c2": lambda r: r[2] + 1.0, "junk": lambda r: 7.0, "cnt2": lambda r: float(r[3] + 1)}
+    cells = [[val[k](r) for _, k in cols] for r in base]
+    titles = [t for t, _ in cols]
+    if variant == "header-shorter":
+        titles = titles[:-1]
+    if variant == "header-longer":
+        titles = titles + ["one more"]
+    if variant == "ragged" and cells:
+        cells[-1] = cells[-1][:-1]
+        if len(cells) == 1:
+            cells.insert(0, [val[k](base[0]) for _, k in cols])
+            base = [base[0]] + base
+    kk = {"route": "array", "cal": "um", "n_lines": 8, "n_pixels": 8, "img_seed": 1, "px_um": 0.1, "lt": 0.125}
+    return {"stream": stream, "kind": "hdr", "k": kk, "variant": variant, "version": version, "titles": titles, "cells": cells,
+            "base": base, "expect": expect, "delim": delim}
 
 
 def small_group_case(ops_, tracks=None, lt=0.125, cal="um"):
@@ -1175,6 +1502,17 @@ def cases(tier, rng):
         for pat in (0, 1):
             c = [float(b) if pat == 0 else [1.5, 0.25, 4.75, 3.0, 3.5, 0.0][b] for b in t]
             yield small_group_case([["i"]], tracks=[{"t": t, "c": c, "md": 0.5 if pat else None, "hw": 1 if pat else None}])
+    # compositions: split then reconnect the parts (every inner node), interpolate twice, filter twice
+    for i, n in enumerate(lens):
+        for node in range(1, n):
+            for minlen in (0, 1):
+                yield small_group_case([["s", i, node, minlen], ["m", 2, node - 1, 3, 0]])
+                yield small_group_case([["s", i, node, minlen], ["m", 3, 0, 2, node - 1]])
+    for bits in (0b101, 0b100101, 0b110001, 0b1, 0b111):
+        t = [b for b in range(6) if bits >> b & 1]
+        yield small_group_case([["i"], ["i"]], tracks=[{"t": t, "c": [[1.5, 0.25, 4.75, 3.0, 3.5, 0.0][b] for b in t], "md": 0.5, "hw": 1}])
+    for (L1, D1), (L2, D2) in itertools.product([(0, 0), (2, 0.25), (3, 0.125), (1, 0.5), (4, 0.3)], repeat=2):
+        yield small_group_case([["f", L1, D1], ["f", L2, D2]])
     # rectangles on the grid of the small group (bounds half-way between nodes / lines)
     for t0, t1 in ((-0.0625, 0.3125), (0.3125, 0.8125), (0.5625, 0.0625), (-1.0, 2.0)):
         for x0, x1 in ((0.05, 0.27), (0.27, 0.6), (0.6, 0.05), (-1.0, 1.0)):
@@ -1184,6 +1522,18 @@ def cases(tier, rng):
     for assign in itertools.product([0, 1, 3], repeat=4):
         rows = [[a, n, 1.0 + 0.25 * n, n + 1, 0.5] for n, a in enumerate(assign)]
         yield {"stream": "small-scope", "kind": "read", "k": kk, "rows": rows, "delim": ";", "has_counts": assign[0] == 0, "has_md": assign[1] != 1}
+    # sampled photon counts: a node at every quarter pixel of a 6-pixel line x every width x both pixel origins
+    ks = {"route": "array", "cal": "um", "n_lines": 24, "n_pixels": 6, "img_seed": 9, "px_um": 0.1, "lt": 0.125}
+    grid = [q / 4 for q in range(0, 22)]  # 0 .. 5.25 (pixel centres at integers; the last pixel ends at 5.5)
+    for w in (0, 1, 2, 5):
+        for co in (True, False):
+            cs = safe_coords(grid if co else grid + [5.5, 5.75])
+            yield {"stream": "small-scope", "kind": "sample", "k": ks, "tracks": [{"t": list(range(len(cs))), "c": cs, "md": None, "hw": None}], "w": w, "co": co}
+    # header variants: every variant x every delimiter on one three-row file, and on a single-row file
+    for variant in HDR_VARIANTS:
+        for d in DELIMS:
+            yield hdr_case(variant, [[0, 1, 2.5, 3, 0.5], [2, 0, 1.0, 5, 0.25], [0, 2, 2.75, 4, 0.5]], d, "small-scope")
+        yield hdr_case(variant, [[1, 3, 1.5, 2, 0.75]], ";", "small-scope")
     # %.6e on a grid incl. ties and carries
     for x in [0.0, 1.0, 0.5, 0.1, 1e-5, 123456.75, 1234567.5, 12345675.0, 12345665.0, 9999999.5, 99999995.0, 0.00099999995, 1.0000005, 2.5e-7, 3.0000015,
               0.125 * 7, 1 / 3, 2 / 3, 1e22, 1e-22, 5e-324 * 2**60]:
@@ -1258,6 +1608,22 @@ def cases(tier, rng):
             rows[sub.randint(0, nrows - 1)][4] = 3.0  # conflicting minimum duration (if the track has other rows)
         yield {"stream": "random", "kind": "read", "k": kk, "rows": rows, "delim": sub.choice(DELIMS), "has_counts": sub.chance(0.5), "has_md": sub.chance(0.7), "subseed": i}
 
+    # ---- random: header variants
+    N = 150 if quick else 2000
+    r = rng.fork("c17-hdr")
+    names = sorted(HDR_VARIANTS)
+    for i in range(N):
+        sub = r.fork(i)
+        ids = sub.sample(range(0, 9), sub.randint(1, 4))
+        per = {a: sub.choice([0.0, 0.5, 0.25, 1.2345675, sub.uniform(0, 2)]) for a in ids}
+        base = []
+        for n in range(sub.randint(1, 12)):
+            a = sub.choice(ids)
+            base.append([a, sub.randint(0, 7), sub.choice([float(sub.randint(0, 7)), sub.uniform(0, 7)]), sub.randint(0, 50), per[a]])
+        c = hdr_case(sub.choice(names), base, sub.choice(DELIMS), "random")
+        c["subseed"] = i
+        yield c
+
     # ---- random: %.6e
     N = 300 if quick else 10000
     r = rng.fork("c17-fmt")
@@ -1280,6 +1646,42 @@ def cases(tier, rng):
     for i in range(N):
         sub = r.fork(i)
         yield gen_refine_case(sub, i, "refine")
+    # centroid core without bias correction: spots in the interior, spots next to an image edge (zero padding, clamping),
+    # and random photon-count images (windows with no counts at all, several maxima)
+    N = 30 if quick else 300
+    r = rng.fork("c17-centroid")
+    for i in range(N):
+        sub = r.fork(i)
+        which = sub.randint(0, 2)
+        if which == 0:
+            c = gen_refine_case(sub, i, "refine")
+        elif which == 1:
+            c = gen_edge_case(sub, i, "refine")
+        else:
+            n_lines, n_pixels = sub.randint(6, 20), sub.randint(8, 24)
+            k = {"route": "array", "cal": sub.choice(["um", "pixel"]), "n_lines": n_lines, "n_pixels": n_pixels, "img_seed": sub.randint(0, 10**6), "px_um": 0.1, "lt": 0.125}
+            tracks = []
+            for n in range(sub.randint(1, 3)):
+                t, cs = B.random_track(sub, n_lines, n_pixels, max_points=8, gap_chance=0.4)
+                tracks.append({"t": t, "c": cs, "md": sub.choice([None, 0.25]), "hw": None})
+            px = 0.1 if k["cal"] == "um" else 1.0
+            hk = sub.randint(1, 3)  # half kernel 1 only where 3 pixels is an exact double (validation: width >= 3 pixels)
+            width = 3.0 if (hk == 1 and k["cal"] == "pixel") else px * (2 * max(hk, 2) + 1) * 0.999
+            c = {"stream": "random", "kind": "refine", "k": k, "tracks": tracks, "width": width, "subseed": i}
+        # keep the rounding of the interpolated coordinate to a pixel away from ties (float vs exact arithmetic)
+        npx = c["k"]["n_pixels"]
+        for tr in c["tracks"]:
+            tr["c"] = [min(npx - 1.0, max(0.0, x + sub.uniform(0.003, 0.04))) for x in tr["c"]]
+        c["kind"], c["bias"] = "centroid", False
+        if which != 0:
+            c["assert_truth"] = False
+        yield c
+    N = 15 if quick else 100
+    r = rng.fork("c17-refine2")
+    for i in range(N):
+        c = gen_refine_case(r.fork(i), i, "refine")
+        c["kind"], c["assert_truth"] = "refine2", False
+        yield c
     N = 40 if quick else 200
     r = rng.fork("c17-gauss")
     for i in range(N):
@@ -1491,6 +1893,9 @@ def extra_coverage(results):
         d[str(key)] = d.get(str(key), 0) + 1
 
     single_row = 0
+    walk = {}
+    winc = {}
+    hdrk = {}
     skipped = {}
     plus_twins = 0
     for r in results:
@@ -1509,6 +1914,23 @@ def extra_coverage(results):
                 for e in m.group(1).split(","):
                     if e and e != "-":
                         bump(errs, "prog-step:" + e)
+        if c["kind"] in ("sample", "rt") and c.get("sw" if c["kind"] == "rt" else "w") is not None and c.get("tracks"):
+            w, npx = c["sw"] if c["kind"] == "rt" else c["w"], c["k"]["n_pixels"]
+            off = 0.5 if c["co"] else 0.0
+            for tr in c["tracks"]:
+                for x in tr["c"]:
+                    lo, hi = int(x + off) - w < 0, int(x + off) + w > npx - 1
+                    bump(winc, "clipped-both-sides" if lo and hi else "clipped-at-first-pixel" if lo else "clipped-at-last-pixel" if hi else "inside")
+        if c["kind"] == "centroid" and not r["impl"][0].split(" ## ")[0].endswith("Error"):
+            aux = split_aux(r["impl"][0])[1]
+            for o, st in zip(aux.get("orig", []), aux.get("state", [])):
+                got = dict(zip(st["t"], st["c"]))
+                for t, x in zip(o["t"], o["c"]):
+                    if t in got:
+                        d = abs(got[t] - round(x))
+                        bump(walk, "stayed-on-the-start-pixel" if d <= 0.5 else "walked-1-pixel" if d <= 1.5 else "walked-2+-pixels")
+        if c["kind"] == "hdr":
+            bump(hdrk, c["variant"] + ":" + ("error" if r["impl"][0].split(" ## ")[0].endswith("Error") else "imported"))
         if c["kind"] == "rt":
             bump(delims, {";": "semicolon", ",": "comma", "\t": "tab"}[c["delim"]])
             bump(sws, c["sw"])
@@ -1530,7 +1952,7 @@ def extra_coverage(results):
                     bump(mdk, "representable")
                 else:
                     bump(mdk, "not-representable-with-6-decimals")
-        if c["kind"] in ("refine", "gauss"):
+        if c["kind"] in ("refine", "refine2", "centroid", "gauss"):
             where = {"lo": "first-pixel-edge", "hi": "last-pixel-edge"}.get(c.get("edge"), "interior")
             bump(refk, f"{c['kind']}:{where}:{'centre-asserted' if c.get('assert_truth') else 'lines-only'}")
             if c["kind"] == "gauss" and c.get("edge") == "lo":
@@ -1544,7 +1966,7 @@ def extra_coverage(results):
         "case_kinds": kinds, "error_kinds": errs, "roundtrip_delimiters": delims, "roundtrip_sampling_widths": sws,
         "roundtrip_calibrations": cals, "roundtrip_kymo_routes": routes, "roundtrip_group_sizes": sizes,
         "roundtrip_longest_track": nodes, "roundtrip_single_row_files": single_row, "roundtrip_minimum_durations": mdk,
-        "program_ops": opsk, "refinement_spot_places": refk, "dropped_for_margin": 0,
+        "header_variants": hdrk, "sampling_windows": winc, "centroid_pixel_walk": walk, "program_ops": opsk, "refinement_spot_places": refk, "dropped_for_margin": 0,
         "private_ties": {k: dict(v) for k, v in sorted(B.PRIVATE_TIES.items())},
         "private_ties_note": "how often each private pylake member was reached directly / replaced by its public twin / "
                              "rediscovered under another name / unreachable (the case is then skipped as '?')",
